@@ -16,8 +16,8 @@ def sh(cmd, cwd=None, env=None, timeout=900):
     return r.returncode, (r.stdout + r.stderr)[-1500:]
 
 
-def verify(pid, n, slot):
-    d = os.path.join(SEED, pid)
+def verify(pid, n, slot, seed_dir=None):
+    d = os.path.join(seed_dir or SEED, pid)
     patch = os.path.join(d, "patch%d.diff" % n)
     demo = os.path.join(d, "demo%d.py" % n)
     if not (os.path.exists(patch) and os.path.exists(demo)):
